@@ -383,7 +383,7 @@ def model_trace(cfg, model, bmc, m):
 
 REPLAY = '''# replay of a schedule found by /verif (property C12) on the real rpyc with real threads
 import sys, threading
-sys.path.insert(0, "/repo"); sys.path.insert(0, "/verif")
+sys.path.insert(0, __import__("os").environ.get("VERIF_REPO", "/repo")); sys.path.insert(0, "/verif")
 from engine.sched import Gate, Mismatch
 from rpyc.core.protocol import Connection
 from rpyc.core.service import VoidService
@@ -537,7 +537,7 @@ def conformance(run, ob, nsched, T, M):
     import json
     cfg, model = build(T, M, True)
     script = CONF % dict(T=T, M=M, lines=cfg.lines(), n=nsched, seed=run.seed)
-    p = subprocess.run(["/venv/bin/python", "-c", script], capture_output=True, text=True, timeout=600, env=dict(os.environ, PYTHONPATH="/repo"))
+    p = subprocess.run(["/venv/bin/python", "-c", script], capture_output=True, text=True, timeout=600, env=dict(os.environ, PYTHONPATH=os.environ.get("VERIF_REPO", "/repo")))
     if p.returncode != 0:
         raise HarnessError("conformance driver failed: %s" % (p.stdout + p.stderr)[-400:])
     runs = json.loads(p.stdout.strip().splitlines()[-1])
@@ -573,7 +573,7 @@ def conformance(run, ob, nsched, T, M):
 
 CONF = '''
 import sys, random, json
-sys.path.insert(0, "/repo"); sys.path.insert(0, "/verif")
+sys.path.insert(0, __import__("os").environ.get("VERIF_REPO", "/repo")); sys.path.insert(0, "/verif")
 from engine.sched import Gate
 from rpyc.core.protocol import Connection
 from rpyc.core.service import VoidService
